@@ -714,13 +714,28 @@ class Gen:
             t = ['bin', '>=', dv, ['lit', '%', 0]]        # always true
             f = ['bin', '<', dv, ['lit', '%', 0]]         # always false
             form = r.choice(('post_until', 'post_while', 'pre_until', 'while'))
+            body, front = [], []
+            if r.random() < 0.5:
+                # a body that is not empty but has no code (a CONST, the DIM of
+                # a scalar), and perhaps such a statement right in front of
+                # the loop as well
+                def codeless():
+                    if r.random() < 0.5:
+                        n_ = self.fresh('kq', '%')     # (never referenced again)
+                        return {'k': 'const', 'name': n_, 'e': ['lit', '%', r.randint(1, 9)]}
+                    n_ = self.fresh('wq')
+                    return {'k': 'dim', 'shared': False, 'name': n_, 'bounds': None, 'ty': '%', 'as': True}
+                if sc.kind == 'main' or not self.p.get('statics'):
+                    body = [codeless()]
+                    if r.random() < 0.6:
+                        front = [codeless()]
             if form == 'post_until':
-                return [{'k': 'do', 'pre': None, 'post': ['until', t], 'body': []}]
+                return front + [{'k': 'do', 'pre': None, 'post': ['until', t], 'body': body}]
             if form == 'post_while':
-                return [{'k': 'do', 'pre': None, 'post': ['while', f], 'body': []}]
+                return front + [{'k': 'do', 'pre': None, 'post': ['while', f], 'body': body}]
             if form == 'pre_until':
-                return [{'k': 'do', 'pre': ['until', t], 'post': None, 'body': []}]
-            return [{'k': 'while', 'cond': f, 'body': []}]
+                return front + [{'k': 'do', 'pre': ['until', t], 'post': None, 'body': body}]
+            return front + [{'k': 'while', 'cond': f, 'body': body}]
         if self.p['devfuncs'] and self.p['strings'] and sc.kind == 'main' \
                 and r.random() < self.p.get('waitkey', 0.12):
             # the wait-for-a-key idiom: poll INKEY$ until it answers (or a
